@@ -263,6 +263,86 @@ func checkDelivery(tag string, subs []*sub, pubs [][]byte, ems []emitter, skip m
 	}
 }
 
+// degenerateFilters: a filter entry may carry no (known) filter kind at all - a client built against a newer API, or
+// an empty entry. Such a request is either refused, or the entry matches nothing; it must never widen the subscription.
+func degenerateFilters(rng *rand.Rand, idx int) {
+	srv := spy.VerifNewSpyServer(zap.NewNop())
+	s := &sub{done: make(chan error, 1)}
+	ctx, cancel := context.WithCancel(context.Background())
+	defer cancel()
+	s.st = &stream{ctx: ctx, cancel: cancel}
+	req := &spyv1.SubscribeSignedVAARequest{}
+	shape := []string{"one-empty-entry", "two-empty-entries", "empty-entry-then-emitter-filter", "emitter-filter-then-empty-entry"}[rng.Intn(4)]
+	valid := universe[rng.Intn(len(universe))]
+	ef := &spyv1.FilterEntry{Filter: &spyv1.FilterEntry_EmitterFilter{EmitterFilter: &spyv1.EmitterFilter{ChainId: publicrpcv1.ChainID(valid.chain), EmitterAddress: hex.EncodeToString(valid.addr[:])}}}
+	switch shape {
+	case "one-empty-entry":
+		req.Filters = []*spyv1.FilterEntry{{}}
+	case "two-empty-entries":
+		req.Filters = []*spyv1.FilterEntry{{}, {}}
+	case "empty-entry-then-emitter-filter":
+		req.Filters = []*spyv1.FilterEntry{{}, ef}
+		s.filters = []emitter{valid}
+	default:
+		req.Filters = []*spyv1.FilterEntry{ef, {}}
+		s.filters = []emitter{valid}
+	}
+	go func() { s.done <- srv.SubscribeSignedVAA(req, s.st) }()
+	refused := false
+	deadline := time.Now().Add(2 * time.Second)
+	for time.Now().Before(deadline) && srv.VerifSubscriptionCount() == 0 && !refused {
+		select {
+		case <-s.done:
+			refused = true
+		default:
+			time.Sleep(200 * time.Microsecond)
+		}
+	}
+	r.Count("degenerate_filter_requests", 1)
+	r.Distinct("scenarios_distinct", "degenerate/"+shape)
+	if refused {
+		r.Count("degenerate_filter_requests_refused", 1)
+		return
+	}
+	if srv.VerifSubscriptionCount() == 0 {
+		r.InconclusiveCase("degenerate filter request neither refused nor registered within 2s")
+		return
+	}
+	var pubs [][]byte
+	var ems []emitter
+	for i := 0; i < 24; i++ {
+		e := universe[i%len(universe)]
+		b := mkVAA(rng, e, uint64(idx)*1000+uint64(i))
+		if blocked, err := publishWD(srv, b, 10*time.Second); blocked || err != nil {
+			r.InconclusiveCase("publish failed in the degenerate-filter scenario")
+			return
+		}
+		pubs, ems = append(pubs, b), append(ems, e)
+	}
+	time.Sleep(30 * time.Millisecond)
+	index := map[string]int{}
+	for i, b := range pubs {
+		index[string(b)] = i
+	}
+	s.st.mu.Lock()
+	got := append([][]byte{}, s.st.got...)
+	s.st.mu.Unlock()
+	for _, g := range got {
+		i, known := index[string(g)]
+		matches := false
+		if known {
+			for _, f := range s.filters {
+				matches = matches || f == ems[i]
+			}
+		}
+		if !matches {
+			r.Violation("delivery:filter-entry-without-a-filter-widens-the-subscription:"+shape, map[string]interface{}{"request": shape, "received": len(got), "published": len(pubs), "valid_filter": fmt.Sprintf("%d/..%x", valid.chain, valid.addr[30:])})
+			break
+		}
+	}
+	s.st.cancel()
+}
+
 func deliveryScenario(rng *rand.Rand, idx int) {
 	srv := spy.VerifNewSpyServer(zap.NewNop())
 	nSubs := 1 + rng.Intn(8)
@@ -489,6 +569,9 @@ func main() {
 	nD := r.Pick(300, 8000)
 	for i := 0; i < nD; i++ {
 		deliveryScenario(rng, i)
+	}
+	for i := 0; i < r.Pick(24, 400); i++ {
+		degenerateFilters(rng, nD+100000+i)
 	}
 	nI := r.Pick(18, 240)
 	variants := []string{"stall-forever", "disconnect-clean", "disconnect-while-backlogged"}
